@@ -1,7 +1,7 @@
 """Observation of containers into plain comparable data, plus comparison helpers."""
 import numpy as np
 
-from vf.base import Failure, Raised, arr_list, canon, eq, sf, short
+from vf.base import Failure, Raised, arr_list, canon, eq, is_missing, sf, short
 
 
 def labels_of(ix):
@@ -70,6 +70,16 @@ def expect_labels(got_ix, want, what='labels'):
         raise Failure('labels', '%s: expected %s got %s' % (what, short(want), short(got)))
 
 
+LOOSE_MISSING = [False]
+
+
+def _eqv(g, w):
+    if eq(g, w):
+        return True
+    # a missing value stays missing (NaT -> None inside an object array is C07's business)
+    return LOOSE_MISSING[0] and is_missing(g) and is_missing(w)
+
+
 def expect_values(got, want, what='values'):
     """got/want: sequences of elements."""
     got = list(got)
@@ -77,7 +87,7 @@ def expect_values(got, want, what='values'):
     if len(got) != len(want):
         raise Failure('length', '%s: expected %d elements got %d (%s vs %s)' % (what, len(want), len(got), short(want), short(got)))
     for i, (g, w) in enumerate(zip(got, want)):
-        if not eq(g, w):
+        if not _eqv(g, w):
             raise Failure('value', '%s[%d]: expected %r got %r (all: %s vs %s)' % (what, i, w, g, short(want), short(got)))
 
 
